@@ -45,6 +45,13 @@ Definition de_f64_ok (j : json) : bool := match j with JNum _ => true | _ => fal
 Definition unit_of {A} (o : outcome A) : outcome unit := omap (fun _ => tt) o.
 Definition of_bool (b : bool) : outcome unit := if b then Ok tt else Err 1.
 
+(* for value in values { children.push(f(value)?) }: stops at the first failure *)
+Fixpoint map_out {X} (g : json -> outcome X) (l : list json) : outcome (list (json * X)) :=
+  match l with
+  | [] => Ok []
+  | c :: r => let* x := g c in let* rest := map_out g r in Ok ((c, x) :: rest)
+  end.
+
 Section ViewDe.
   Variable orc : N -> json -> bool.
   Variable frgba : str -> option rgba.
@@ -151,42 +158,54 @@ Section ViewDe.
 
   Definition is_some {A} (o : option A) : bool := match o with Some _ => true | None => false end.
 
+  (* What the deserialiser builds is left to a family of constructors, so that the same definition
+     gives the outcome class alone (unit_builders: view_de) and the view tree of the C10 model
+     (Serde/ViewTree.v).  Constructors see the JSON node for the attributes and the children built. *)
+  Record builders (T : Type) := {
+    b_text : json -> T;                          (* Text from the whole node *)
+    b_flex : json -> list (json * T) -> T;       (* node, (child entry, child view) in order *)
+    b_container : json -> T -> T;
+    b_glyph : json -> T;
+    b_image : json -> image -> T;
+    b_ascii : json -> image -> outcome T;        (* ImageAsciiView *)
+    b_tag : json -> T -> T;
+    b_ref : json -> T;                           (* ViewCached *)
+    b_trace : json -> T -> T                     (* TraceLayout *)
+  }.
+
   (* view/mod.rs:793-878 with flex.rs:253-316, container.rs:258-298, tag_from_json_value *)
-  Fixpoint view_de (fuel : nat) (j : json) : outcome unit :=
+  Fixpoint view_gen {T : Type} (B : builders T) (fuel : nat) (j : json) : outcome T :=
     match fuel with
     | O => OutOfFuel
     | S f =>
         match (match jget j (s2l "type") with Some (JStr t) => Some t | _ => None end) with
         | None => Err 1
         | Some t =>
-            if str_eqb t (s2l "text") then text_rec (S f) j
+            if str_eqb t (s2l "text") then
+              let* _ := text_rec (S f) j in Ok (b_text T B j)
             else if str_eqb t (s2l "trace-layout") then
               match jget j (s2l "view") with
               | None => Err 2
-              | Some v => view_de f v
+              | Some v => let* x := view_gen B f v in Ok (b_trace T B j x)
               end
             else if str_eqb t (s2l "flex") then
               let* _ := opt_attr j "direction" (fun v => of_bool (orc OAxis v)) in
               let* _ := opt_attr j "justify" (fun v => of_bool (orc OJustify v)) in
               match jget j (s2l "children") with
-              | None => Ok tt
+              | None => Ok (b_flex T B j [])
               | Some (JArr values) =>
-                  (fix go (l : list json) : outcome unit :=
-                     match l with
-                     | [] => Ok tt
-                     | c :: r =>
-                         let* _ :=
-                           (if is_some (jget c (s2l "type")) then view_de f c
-                            else
-                              let* _ := opt_attr c "flex" (fun v => of_bool (de_f64_ok v)) in
-                              let* _ := opt_attr c "align" (fun v => of_bool (orc OAlign v)) in
-                              let* _ := opt_attr c "face" face_de_u in
-                              match jget c (s2l "view") with
-                              | None => Err 3
-                              | Some v => view_de f v
-                              end) in
-                         go r
-                     end) values
+                  let* kids :=
+                    map_out (fun c =>
+                      if is_some (jget c (s2l "type")) then view_gen B f c
+                      else
+                        let* _ := opt_attr c "flex" (fun v => of_bool (de_f64_ok v)) in
+                        let* _ := opt_attr c "align" (fun v => of_bool (orc OAlign v)) in
+                        let* _ := opt_attr c "face" face_de_u in
+                        match jget c (s2l "view") with
+                        | None => Err 3
+                        | Some v => view_gen B f v
+                        end) values in
+                  Ok (b_flex T B j kids)
               | Some _ => Err 4
               end
             else if str_eqb t (s2l "container") then
@@ -197,10 +216,11 @@ Section ViewDe.
               let* _ := opt_attr j "size" (fun v => of_bool (is_some (de_size v))) in
               match jget j (s2l "child") with
               | None => Err 5
-              | Some v => view_de f v
+              | Some v => let* x := view_gen B f v in Ok (b_container T B j x)
               end
-            else if str_eqb t (s2l "glyph") then glyph_de j
-            else if str_eqb t (s2l "image") || str_eqb t (s2l "image_ascii") then unit_of (image_de j)
+            else if str_eqb t (s2l "glyph") then let* _ := glyph_de j in Ok (b_glyph T B j)
+            else if str_eqb t (s2l "image") then let* img := image_de j in Ok (b_image T B j img)
+            else if str_eqb t (s2l "image_ascii") then let* img := image_de j in b_ascii T B j img
             else if str_eqb t (s2l "color") then Err 6      (* RGBADeserializer on the object itself: never a string *)
             else if str_eqb t (s2l "tag") then
               match jget j (s2l "view") with
@@ -208,14 +228,23 @@ Section ViewDe.
               | Some v =>
                   match jget j (s2l "tag") with
                   | None => Err 8
-                  | Some _ => view_de f v
+                  | Some _ => let* x := view_gen B f v in Ok (b_tag T B j x)
                   end
               end
             else if str_eqb t (s2l "ref") then
-              of_bool (match jget j (s2l "ref") with Some r => as_i64_some r | None => false end)
+              let* _ := of_bool (match jget j (s2l "ref") with Some r => as_i64_some r | None => false end) in
+              Ok (b_ref T B j)
             else Err 9                                      (* no registered handler *)
         end
     end.
+
+  Definition unit_builders : builders unit :=
+    {| b_text := fun _ => tt; b_flex := fun _ _ => tt; b_container := fun _ _ => tt; b_glyph := fun _ => tt;
+       b_image := fun _ _ => tt; b_ascii := fun _ _ => Ok tt; b_tag := fun _ _ => tt; b_ref := fun _ => tt;
+       b_trace := fun _ _ => tt |}.
+
+  (* the outcome class alone *)
+  Definition view_de (fuel : nat) (j : json) : outcome unit := view_gen unit_builders fuel j.
 
   (* nesting depth of a JSON value *)
   Fixpoint jdepth (j : json) : nat :=
@@ -225,12 +254,14 @@ Section ViewDe.
     | _ => 1%nat
     end.
 
-  Definition view_de_kind (k : vkind) (j : json) : outcome unit :=
+  Definition view_gen_kind {T : Type} (B : builders T) (k : vkind) (j : json) : outcome T :=
     match k with
-    | KView => view_de (S (jdepth j)) j
-    | KText => text_rec (S (jdepth j)) j
-    | KGlyph => glyph_de j
+    | KView => view_gen B (S (jdepth j)) j
+    | KText => let* _ := text_rec (S (jdepth j)) j in Ok (b_text T B j)
+    | KGlyph => let* _ := glyph_de j in Ok (b_glyph T B j)
     end.
+
+  Definition view_de_kind (k : vkind) (j : json) : outcome unit := view_gen_kind unit_builders k j.
 End ViewDe.
 
 (* oracle from a finite table of answers: (kind, value) -> accepted *)
